@@ -104,3 +104,8 @@ fn merge_keep_nullable<'a, T: Copy + 'a>(ops: &[u8],
     }
     (result, present)
 }
+
+#[cfg(feature = "verif")]
+pub fn verif_merge_keep_i64(ops: &[u8], left: &[i64], right: &[i64]) -> Vec<i64> {
+    merge_keep(ops, left, right)
+}
